@@ -142,10 +142,10 @@ pub fn schedule_strategy() -> impl Strategy<Value = Schedule> {
 }
 
 fn strat(n_sched: std::ops::Range<usize>) -> impl Strategy<Value = DetCase> {
-    let cfg = GenCfg { max_contig: 2500, max_samples: 5, many_samples_pct: 8, single_file: None, vary_presentation: false };
+    let cfg = GenCfg { max_contig: 2500, max_samples: 5, many_samples_pct: 8, single_file: None, vary_presentation: false, swarm_pct: 0 };
     let general = gen::collection_strategy(cfg);
     // one PanSN file with sync-token rounds every -l contigs
-    let rounds = (gen::collection_strategy(GenCfg { max_contig: 1500, max_samples: 5, many_samples_pct: 15, single_file: Some(true), vary_presentation: false }), 1u32..9).prop_map(|(mut c, pack)| {
+    let rounds = (gen::collection_strategy(GenCfg { max_contig: 1500, max_samples: 5, many_samples_pct: 15, single_file: Some(true), vary_presentation: false, swarm_pct: 0 }), 1u32..9).prop_map(|(mut c, pack)| {
         c.params.pack = pack;
         c
     });
